@@ -289,7 +289,7 @@ def _finder_classes():
             return r
 
         def _maps_are_matched(self, matching_info, sp1, sp2):
-            # with the proposed repair of F-C13e this walk asks _eq_path_matches again (fresh cache, final
+            # since the repair of F-C13e (8a96a0c) this walk asks _eq_path_matches again (fresh cache, final
             # maps): those answers are recorded apart from the ones given during the search
             self.rec_walk, self.rec_log2 = True, []
             try:
@@ -690,8 +690,8 @@ def impl(case):
     from comb_spec_searcher.bijection import EqPathParallelSpecFinder
 
     res = _impl_abs(case) if case["kind"] == "abs" else _impl_real(case)
-    # the proposed repair of F-C13e (findings/eqpath_unvalidated_child_paths.diff) overrides this method in
-    # the EqPath class; the model has both forms of that class and follows the one the repository has
+    # the repair of F-C13e (findings/eqpath_unvalidated_child_paths.diff, committed as 8a96a0c) overrides this method
+    # in the EqPath class; the model has both forms of that class and follows the one the repository has (today: patched)
     res["eq_patched"] = "_maps_are_matched" in EqPathParallelSpecFinder.__dict__
     return res
 
@@ -826,11 +826,75 @@ def _structural_iso(spec1, spec2):
     return (r1(spec1.root)[0], r2(spec2.root)[0]) in rel, chained[0]
 
 
+def _oneskip_iso(spec1, spec2):
+    """Greatest-fixed-point bisimulation that, like Isomorphism.check since e943cb6, steps over AT MOST ONE
+    equivalence rule per side at every node, and lets the rule reached after that step match only a rule of the same
+    kind (both equivalences or neither).  Independent of isomorphism.py (no memo tables, no search order).
+    Used to decide whether CHAINED equivalence steps are what makes Isomorphism.check reject a pair that
+    _structural_iso accepts: the open finding KF_CHAIN is exactly `_structural_iso and not _oneskip_iso`."""
+    from comb_spec_searcher.strategies.rule import Rule
+
+    def stepper(spec):
+        def step(c):
+            r = spec.get_rule(c)
+            if isinstance(r, Rule) and r.is_equivalence():
+                c = [x for x in r.children if not x.is_empty()][0]
+                r = spec.get_rule(c)
+            return c, r
+        return step
+
+    def reach(step, root):
+        out, st = {}, [root]
+        while st:
+            a = st.pop()
+            if a in out:
+                continue
+            c, r = step(a)
+            kids = tuple(x for x in r.children if not x.is_empty())
+            out[a] = (c, r, kids)
+            st.extend(kids)
+        return out
+
+    A, B = reach(stepper(spec1), spec1.root), reach(stepper(spec2), spec2.root)
+
+    def local(a, b):
+        ca, ra, ka = A[a]
+        cb, rb, kb = B[b]
+        if len(ka) != len(kb):
+            return False
+        if not isinstance(ra, Rule) or not isinstance(rb, Rule):
+            if isinstance(ra, Rule) or isinstance(rb, Rule):
+                return False
+            if not (ca.is_atom() and cb.is_atom()):
+                return False
+            sa, sb = ca.minimum_size_of_object(), cb.minimum_size_of_object()
+            return sa == sb and ra.get_terms(sa) == rb.get_terms(sb)
+        if bool(ra.is_equivalence()) != bool(rb.is_equivalence()):
+            return False
+        return bool(ra.constructor.equiv(rb.constructor)[0])
+
+    rel = {(a, b) for a in A for b in B if local(a, b)}
+    changed = True
+    while changed:
+        changed = False
+        for a, b in list(rel):
+            ka, kb = A[a][2], B[b][2]
+            if not any(all((ka[p[j]], kb[j]) in rel for j in range(len(kb)))
+                       for p in itertools.permutations(range(len(ka)))):
+                rel.discard((a, b))
+                changed = True
+    return (spec1.root, spec2.root) in rel
+
+
 def _iso_facts(spec1, spec2):
     from comb_spec_searcher.isomorphism import Bijection, Isomorphism
 
     out = {}
     out["structural"], out["chained"] = _structural_iso(spec1, spec2)
+    try:
+        out["oneskip"] = bool(_oneskip_iso(spec1, spec2))
+    except Exception as ex:  # pylint: disable=broad-except
+        out["oneskip"] = "%s: %s" % (type(ex).__name__, str(ex)[:80])
     out["lib12"] = bool(Isomorphism.check(spec1, spec2))
     out["lib21"] = bool(Isomorphism.check(spec2, spec1))
     out["bijection"] = None
@@ -993,12 +1057,26 @@ def oracle(case, res):
         return "the output is not a matched pair: %s%s" % (why, tag)
     if case["kind"] != "abs":
         iso = res["iso"]
+        failures = []
         if not (iso["lib12"] and iso["lib21"]):
-            tag = " [chained equivalence steps]" if iso["chained"] else ""
-            return "Isomorphism.check rejects the returned pair (%s, %s) although it is isomorphic up to equivalence steps%s" % (
-                iso["lib12"], iso["lib21"], tag)
+            # the open finding KF_CHAIN, and nothing wider: BOTH directions reject (an asymmetric verdict is another
+            # defect), some class resolves through more than one equivalence step, and the chains are what explains
+            # the rejection: the bisimulation that steps over at most one equivalence rule per side (what
+            # Isomorphism.check implements) fails too, while the one that steps over any number succeeds
+            explained = (iso["chained"] and not iso["lib12"] and not iso["lib21"] and iso.get("oneskip") is False)
+            tag = " [chained equivalence steps]" if explained else ""
+            if iso["chained"] and not explained:
+                tag = " [chains present but they do not explain it: one-step bisimulation %r]" % (iso.get("oneskip"),)
+            failures.append("Isomorphism.check rejects the returned pair (%s, %s) although it is isomorphic up to equivalence steps%s" % (
+                iso["lib12"], iso["lib21"], tag))
         if iso["bijection"]:
-            return "bijection between the returned specifications: " + iso["bijection"]
+            failures.append("bijection between the returned specifications: " + iso["bijection"])
+        # the first UNMASKED failure; a masked one only when nothing else is wrong
+        for w in failures:
+            if finding_match(case, w) is None:
+                return w
+        if failures:
+            return failures[0]
     return None
 
 
@@ -1010,7 +1088,9 @@ def finding_match(case, why):
     if (why.startswith("find() raised KeyError") and "[in _validate_atoms_for_existing_entries]" in why
             and case.get("variant") == 1):
         return KF_SHORTCUT
-    if why.startswith("Isomorphism.check rejects the returned pair") and "[chained equivalence steps]" in why:
+    if (why.startswith("Isomorphism.check rejects the returned pair (False, False)")
+            and why.endswith(" [chained equivalence steps]")):
+        # the tag is only written by the oracle after it has established that the chains explain the rejection
         return KF_CHAIN
     if (why.startswith("the output is not a matched pair") and case.get("variant") == 1
             and "[equivalence paths of the children" in why and "were never compared]" in why):
@@ -1097,7 +1177,7 @@ TECHNIQUE = (
     "objects) of what the real finder returns"
 )
 LEVEL_TEXT = (
-    "For the code as it is (fix: commits a172a92, 97589e3), for all rule databases / universes and all fuel: "
+    "For the code as it is (fix: commits a172a92, 97589e3, 8a96a0c), for all rule databases / universes and all fuel: "
     "C13_matched_pair, C13_matched_pair_eqpath (whatever find() returns, in either variant, is a matched pair: both label "
     "maps closed from their roots, made of rules of their universes, isomorphic through a relation respecting "
     "constructor classes, atoms and a permutation of the children at every node); C13_base_finder_never_raises + "
@@ -1110,10 +1190,12 @@ LEVEL_TEXT = (
     "label, C02's theorem; Examples for a start label that is not its representative and for the pre-a34d719 call); "
     "C13_two_rule_sets(_eqpath): end to end from the two rule databases to two closed rule sets, no hypothesis on the "
     "universes left. History: C13_matched_pair_refuted, C13_eqpath_raises_refuted are about the code before 97589e3 "
-    "(find_base_old / find_eq_old). Open findings, found by the oracle, outside what the label-level theorems speak "
-    "about: EqPathParallelSpecFinder does not compare the equivalence paths of the children of two already-assigned "
-    "labels (non-isomorphic specifications; proposed repair modelled as pw = true, same theorems proved for it), and "
-    "returned pairs with chained equivalence steps that Isomorphism.check rejects."
+    "(find_base_old / find_eq_old). Found by the oracle, outside what the label-level theorems speak "
+    "about: FIXED (8a96a0c) - EqPathParallelSpecFinder did not compare the equivalence paths of the children of two "
+    "already-assigned labels (non-isomorphic specifications); the repair (a second final walk) is the model's pw = true, "
+    "which is /repo as it is and what every case runs (pw = false describes the code before the fix; the same theorems are "
+    "proved for both); OPEN - returned pairs with chained equivalence steps that Isomorphism.check rejects (masked only when "
+    "both directions reject and a bisimulation stepping over at most one equivalence rule per side fails too)."
 )
 LEVEL_NOTE = (
     "Model level: the theorems are about Parallel/Model.v + InfoModel.v, tied to bijection.py by the correspondence (0 "
@@ -1122,7 +1204,7 @@ LEVEL_NOTE = (
     "exception of the real finder is an oracle failure unless it is one of three documented refusals. 'Matched pair' is "
     "the label-map notion (up to equivalence labels, as the finder works): it does not see non-equivalence rules inside "
     "equivalence paths — that, validity of the returned specifications (C01/C02) and Isomorphism.check / "
-    "Bijection.construct on them are instance verdicts of the oracle (the open EqPath finding lives exactly there). "
+    "Bijection.construct on them are instance verdicts of the oracle (the EqPath finding fixed by 8a96a0c lived exactly there; the open chained-equivalence-steps finding does) "
     "Not modelled: expansion of the searchers, EquivalenceRuleExtractor (answers of _eq_path_matches replayed as a "
     "table), CombinatorialSpecification construction and Isomorphism (C12)."
 )
